@@ -54,7 +54,9 @@ def _args_strategies():
     S["hql.tblproperties"] = ("hql", "tblprops", st.fixed_dictionaries({
         "props": st.lists(st.tuples(_lit(), _lit()), min_size=1, max_size=3, unique_by=lambda kv: kv[0])}))
     S["hql.partitioned_by"] = ("hql", "partitioned", st.fixed_dictionaries({
-        "cols": st.lists(st.tuples(st.one_of(_name(), _name(), _kwname()), st.sampled_from(["string", "int", "date", "STRING", "bigint"])), min_size=1, max_size=3, unique_by=lambda c: c[0].lower())}))
+        "cols": st.lists(st.tuples(st.one_of(_name(), _name(), _kwname()), st.sampled_from(["string", "int", "date", "STRING", "bigint"])), min_size=1, max_size=3, unique_by=lambda c: c[0].lower()),
+        # per partition column: nothing | a size (the type becomes varchar) | an inline COMMENT
+        "extra": st.lists(st.one_of(st.none(), st.none(), st.tuples(st.just("size"), st.integers(1, 255)), st.tuples(st.just("comment"), _lit())), min_size=3, max_size=3)}))
     S["hql.clustered_by"] = ("hql", "clustered", st.fixed_dictionaries({"cols": st.integers(1, 2), "n": st.integers(1, 256)}))
     S["hql.comment"] = ("hql", "comment", st.fixed_dictionaries({"text": _lit()}))
     S["hql.skewed_by"] = ("hql", "skewed", st.fixed_dictionaries({"on": st.lists(st.integers(0, 99), min_size=1, max_size=3)}))
@@ -141,8 +143,18 @@ def clause(inst, colnames):
     if cid == "hql.tblproperties":
         return K("TBLPROPERTIES") + plist([[L(k), ("=", "G"), L(v)] for k, v in a["props"]]), "top", {"tblproperties": {k: v for k, v in a["props"]}}
     if cid == "hql.partitioned_by":
-        return (K("PARTITIONED", "BY") + plist([[I(n), T(t)] for n, t in a["cols"]]), "common",
-                {"partitioned_by": [{"name": n, "type": t, "size": None} for n, t in a["cols"]]})
+        items, exp = [], []
+        for (n, t), x in zip(a["cols"], list(a.get("extra") or []) + [None] * 3):
+            if x and x[0] == "size":
+                items.append([I(n), T("varchar"), LP, N(x[1]), RP])
+                exp.append({"name": n, "type": "varchar", "size": x[1]})
+            elif x and x[0] == "comment":
+                items.append([I(n), T(t)] + K("COMMENT") + [L(x[1])])
+                exp.append({"name": n, "type": t, "size": None, "comment": x[1]})
+            else:
+                items.append([I(n), T(t)])
+                exp.append({"name": n, "type": t, "size": None})
+        return K("PARTITIONED", "BY") + plist(items), "common", {"partitioned_by": exp}
     if cid == "hql.clustered_by":
         cs = _cols(colnames, a["cols"])
         return (K("CLUSTERED", "BY") + plist([[I(c)] for c in cs]) + K("INTO") + [N(a["n"])] + K("BUCKETS"), "top",
